@@ -217,6 +217,39 @@ class Engine:
             p.assume(goal)
         return o
 
+    # ------------------------------------------------------------------ access policy (C19)
+    # specs may declare ACCESS_POLICY = {'class': C, 'tables': [...], 'owner': 'factory', 'key': 'addr'}: in every unit
+    # whose target is a method of C (or a closure inside one), a value read from self.<owner>.<table> is flagged; a
+    # flagged table may only be subscripted (load, store, del, .get) with the key self.<key>; any other use is refused.
+    def policy_conf(self):
+        if self.specs is None or 'ACCESS_POLICY' not in self.specs.consts:
+            return None
+        return self.specs.consts['ACCESS_POLICY'][1]
+
+    def policy_on(self):
+        return getattr(self, 'policy_self', None) is not None
+
+    def policy_flag(self, u, attr):
+        if self.policy_on() and attr in self.policy_conf()['tables']:
+            u.outer = attr
+        return u
+
+    def policy_key(self, p, b, key, node):
+        tbl = getattr(b, 'outer', None)
+        if tbl is None or not self.policy_on():
+            return
+        own = self.key_term(load_value(p, self.policy_conf()['key'], self.policy_self.t), p)
+        k = z3.IntVal(-1) if isinstance(key, VNone) else self.key_term(key, p)
+        self.oblige(p, 'policy/table %s is accessed at [self.%s] only: %s' % (tbl, self.policy_conf()['key'], self.src(node)[:60]),
+                    k == own, 'policy')
+
+    def policy_escape(self, p, v, what):
+        tbl = getattr(v, 'outer', None)
+        if tbl is None or not self.policy_on():
+            return
+        self.oblige(p, 'policy/table %s is used other than by a subscript [self.%s]: %s' % (tbl, self.policy_conf()['key'], what[:60]),
+                    z3.BoolVal(False), 'policy')
+
     # ------------------------------------------------------------------ helpers
     def raise_(self, p, cls, origin, args=()):
         return Res(p, exc=VExc(cls, args, origin))
@@ -314,6 +347,8 @@ class Engine:
             else:
                 val = mk_value(k, simp(v.get(k)))
                 self.wf_value(q, val)
+                if getattr(v, 'outer', None) is not None:
+                    val.outer = v.outer
                 out.append((q, val))
         return out
 
@@ -990,6 +1025,7 @@ class Engine:
         raise Unsupported('compare op')
 
     def contains(self, p, a, b):
+        self.policy_escape(p, b, 'in')
         if isinstance(b, VRef) and b.cls == 'dict' or isinstance(b, VRef) and b.cls is None:
             k = self.key_term(a)
             return z3.Select(harr(p, '$dom'), b.t, k)
